@@ -3426,8 +3426,11 @@ class DenseIntOrFPElementsAttr(
         Return whether or not this dense attribute is defined entirely
         by a single value (splat).
         """
-        values = self.get_values()
-        return values.count(values[0]) == len(values)
+        # Compare the stored bytes: `0.0 == -0.0`, so comparing the values would print
+        # `[0.0, -0.0]` as the splat `0.0`.
+        count = len(self)
+        data = self.data.data
+        return data == data[: len(data) // count] * count
 
     @staticmethod
     def parse_with_type(parser: AttrParser, type: Attribute) -> TypedAttribute:
